@@ -45,7 +45,9 @@ def predicate_M(case, out):
     """C05 statement on one implementation observation; returns None or the failure."""
     sp, res, factor, form, vend, mask, a, b = case
     try:
-        head, vis, tail = [x.strip() for x in out.split("|")]
+        parts = [x.strip() for x in out.split("|")]
+        head, vis, tail = parts[:3]
+        seg = parts[3].split()[1:] if len(parts) > 3 and parts[3].startswith("SEG") else None
         nd, verdict = map(int, head.split())
         tl = tail.split()
         fr, lvs, dv, di = tl[:4]
@@ -57,6 +59,17 @@ def predicate_M(case, out):
         if verdict != 0 or (dv, di) != (0, 1) or fr != "untouched":
             return "pose pair without a connecting curve: verdict %d counters %d/%d" % (verdict, dv, di)
         return None
+    # the segment count itself: factor * ceil(distance / longest valid segment), the largest such count over the
+    # components of a compound space (recomputed here from the distances and segment lengths the space reports)
+    if seg:
+        import math
+        def fl(h): return struct.unpack("<d", struct.pack("<Q", int(h, 16)))[0]
+        try:
+            want = max(int(seg[k + 2]) * int(math.ceil(fl(seg[k]) / fl(seg[k + 1]))) for k in range(0, len(seg), 3))
+        except (ValueError, OverflowError, ZeroDivisionError):
+            want = None
+        if want is not None and want != nd:
+            return "validSegmentCount = %d but factor * ceil(distance / longest valid segment) = %d (for a compound space: the maximum over its components, each with its own factor)" % (nd, want)
     mask = mask + "1" * max(0, nd + 2 - len(mask))
     allv = all(mask[j] == "1" for j in range(1, nd)) and vend == 1
     if (verdict == 1) != allv:
@@ -198,7 +211,7 @@ def main():
             bad = predicate_M(cs, io)
             # canonical forms
             try:
-                ih, iv, it = [x.strip() for x in io.split("|")]
+                ih, iv, it = [x.strip() for x in io.split("|")][:3]
                 nd = int(ih.split()[0]); ndhist[min(nd, 50) // 5 * 5] += 1
                 hist[SPACE_NAME[cs[0]]] += 1
                 fr, lvs, dv, di = it.split()[:4]
